@@ -6,6 +6,8 @@
 import Lean.Data.Json
 import BVM.Model.V2
 import BVM.Proofs.V2
+import BVM.Gen.Schemas
+import BVM.Model.Load
 open Lean BVM
 
 namespace Drv
@@ -109,6 +111,28 @@ def handleFront (j : Json) : Option String :=
     some (showFR (expand2 (worldOfK j "dirs2") (worldOfK j "dirs3") (fuelOf j) (kvsOfJson ((j.getObjVal? "doc").toOption.getD .null))))
   | "convert2" =>
     some (showFR (convert2 (worldOfK j "dirs2") (fuelOf j) (kvsOfJson ((j.getObjVal? "doc").toOption.getD .null))))
+  | "validate" =>
+    let sid := (j.getObjValAs? String "schema").toOption.getD ""
+    let key := "https://barectf.org/schemas/" ++ sid ++ ".json"
+    let y := yOfJson ((j.getObjVal? "doc").toOption.getD .null)
+    some (match validate Gen.store (fuelOf j) (.ref key) y with
+      | some true => "valid"
+      | some false => "invalid"
+      | none => "unknown")
+  | "load3" =>
+    let r := load3 Gen.store (worldOf j) (fuelOf j) (kvsOfJson ((j.getObjVal? "doc").toOption.getD .null))
+    some (match verdictOf r with
+      | .accept => showFR r
+      | .reject c => "reject " ++ c
+      | .crash w => "crash " ++ w
+      | .unknown => "unknown")
+  | "load2" =>
+    let r := load2 Gen.store (worldOfK j "dirs2") (worldOfK j "dirs3") (fuelOf j) (kvsOfJson ((j.getObjVal? "doc").toOption.getD .null))
+    some (match verdictOf r with
+      | .accept => showFR r
+      | .reject c => "reject " ++ c
+      | .crash w => "crash " ++ w
+      | .unknown => "unknown")
   | "aft" =>
     let a := aftOf ((j.getObjVal? "ft").toOption.getD .null)
     some ((Json.arr #[jsonOfY a.r2, jsonOfY a.r3]).compress)
